@@ -12,6 +12,8 @@ mod mux;
 mod udp;
 #[path = "c16/vtime.rs"]
 mod vtime;
+#[path = "c16/xchg.rs"]
+mod xchg;
 
 use udp::{Ev, UdpCase, Q};
 
@@ -49,6 +51,35 @@ pub fn exec(ctx: &mut Ctx, line: &str, rec: &mut Recorder) {
                     let idx = rec.case(line.to_string(), "~".into());
                     rec.fail(idx, format!("panic: {p}"), "");
                 }
+            }
+        }
+        Some("consts") => {
+            let out = source_consts().unwrap_or_else(|| "?".into());
+            rec.case(line.to_string(), out);
+            rec.stat("op.consts");
+        }
+        Some("xchg") => {
+            let Some(c) = xchg::parse(&t) else {
+                rec.stat("skipped.unparsable-case");
+                return;
+            };
+            let r = catch(|| xchg::run(&c));
+            rec.impl_only += 1;
+            let idx = rec.case(line.to_string(), "~".into());
+            rec.stat("op.xchg");
+            match r {
+                Ok((stats, fails)) => {
+                    for s in stats {
+                        rec.stat(&s);
+                    }
+                    if fails.is_empty() && c.k >= 2 {
+                        rec.nontrivial(idx);
+                    }
+                    for f in fails {
+                        rec.fail(idx, f, "");
+                    }
+                }
+                Err(p) => rec.fail(idx, format!("panic: {p}"), ""),
             }
         }
         Some("begin") => {
@@ -108,6 +139,30 @@ pub fn exec(ctx: &mut Ctx, line: &str, rec: &mut Recorder) {
         }
         _ => rec.stat("skipped.unparsable-case"),
     }
+}
+
+/// The five numeric constants the models hard-code, read from the source the harness was built from:
+/// UDP loop bound, QOS_MAX_RECEIVE_MSGS, id tries, caller channel slots (buffer + 1), outbound slots.
+fn source_consts() -> Option<String> {
+    let root = std::env::var("HICKORY_REPO").unwrap_or_else(|_| "/repo".into());
+    let rd = |p: &str| std::fs::read_to_string(format!("{root}/{p}")).ok();
+    fn num_after(s: &str, anchor: &str, then: &str) -> Option<u64> {
+        let i = s.find(anchor)?;
+        let s = &s[i + anchor.len()..];
+        let j = s.find(then)?;
+        let s = &s[j + then.len()..];
+        let d: String = s.chars().take_while(|c| c.is_ascii_digit() || *c == '_').filter(|c| *c != '_').collect();
+        d.parse().ok()
+    }
+    let udp = rd("crates/net/src/udp/udp_client_stream.rs")?;
+    let mux = rd("crates/net/src/xfer/dns_multiplexer.rs")?;
+    let xfer = rd("crates/net/src/xfer/mod.rs")?;
+    let examined = num_after(&udp, "let mut recv_buf = vec![0; self.recv_buf_size];", "for _ in 0..")?;
+    let qos = num_after(&mux, "const QOS_MAX_RECEIVE_MSGS: usize", "= ")?;
+    let tries = num_after(&mux, "fn next_random_query_id", "for _ in 0..")?;
+    let chan = num_after(&mux, "const QUERY_RESPONSE_BUFFER_SIZE: usize", "= ")?;
+    let out = num_after(&xfer, "const DEFAULT_STREAM_BUFFER_SIZE: usize", "= ")?;
+    Some(format!("{examined} {qos} {tries} {} {}", chan + 1, out + 1))
 }
 
 // ------------------------------------------------------------------------------------------------
@@ -647,6 +702,34 @@ fn mux_enumerate(ctx: &mut Ctx, rec: &mut Recorder, k: usize, len: usize, serial
     }
 }
 
+fn gen_xchg(r: &mut Rng) -> String {
+    let k = r.range(1, 8) as usize;
+    let flood = *r.pick(&[0usize, 0, 0, 1, 50, 99, 100, 101, 150, 200, 250]);
+    let mut order: Vec<usize> = (0..k).collect();
+    for i in (1..k).rev() {
+        order.swap(i, r.below(i as u64 + 1) as usize);
+    }
+    let mut script: Vec<String> = vec![];
+    for j in order {
+        match r.below(8) {
+            0 => {}
+            1 => {
+                script.push(format!("r{j}"));
+                script.push(format!("r{j}"));
+            }
+            2 => {
+                script.push("u".into());
+                script.push(format!("r{j}"));
+            }
+            _ => script.push(format!("r{j}")),
+        }
+        if r.chance(1, 25) {
+            script.push(if r.chance(1, 2) { "c".into() } else { "e".into() });
+        }
+    }
+    format!("xchg {k} {flood} {} {}", b(r.chance(1, 2)), if script.is_empty() { "-".to_string() } else { script.join(",") })
+}
+
 /// every arrival sequence of length <= `len` over 11 fixed event kinds on one transmission, for one
 /// request, with and without case randomisation (small-scope validation of the loop model)
 fn udp_enumerate(ctx: &mut Ctx, rec: &mut Recorder, len: usize) {
@@ -696,7 +779,7 @@ fn udp_enumerate(ctx: &mut Ctx, rec: &mut Recorder, len: usize) {
 }
 
 pub fn run(o: &Opts, rec: &mut Recorder) {
-    rec.rule = "UDP lines: scripted arrival lists (genuine reply + forged datagrams of 17 kinds: wrong ip/port/id/name/type/class, extra/duplicate/missing question, case flip, garbage, truncation, QR=0, recv error, v4-mapped alias) per transmission, with delays, with and without case randomisation; a case is non-trivial when a non-matching datagram was examined or a reply was accepted after at least one other datagram; distinct by case line. Multiplexer blocks (begin…end): k concurrent requests on a scripted stream, responses in any order / duplicated / never / unknown id / undecodable / QR=0, cancels, timeouts in virtual time, close, shutdown, floods of 99-250 frames, stalled writer; a block is non-trivial when at least two requests were in flight together and a response reached a caller; distinct by block serial".into();
+    rec.rule = "UDP lines: scripted arrival lists (genuine reply + forged datagrams of 17 kinds: wrong ip/port/id/name/type/class, extra/duplicate/missing question, case flip, garbage, truncation, QR=0, recv error, v4-mapped alias) per transmission, with delays, with and without case randomisation; a case is non-trivial when a non-matching datagram was examined or a reply was accepted after at least one other datagram; distinct by case line. Multiplexer blocks (begin…end): k concurrent requests on a scripted stream, responses in any order / duplicated / never / unknown id / undecodable / QR=0, cancels, timeouts in virtual time, close, shutdown, floods of 99-250 frames, stalled writer; `xchg` lines (no model side): k requests through the real DnsExchange + background task + multiplexer run by a wake-driven executor, responses permuted/duplicated/missing after floods of 0-250 foreign frames; a block is non-trivial when at least two requests were in flight together and a response reached a caller; distinct by block serial".into();
     let mut ctx = Ctx::default();
     for l in o.pre_lines.clone() {
         exec(&mut ctx, &l, rec);
@@ -706,6 +789,8 @@ pub fn run(o: &Opts, rec: &mut Recorder) {
     if o.replay_only {
         return;
     }
+    // the constants of the models against the source this harness was built from
+    exec(&mut ctx, "consts", rec);
     let mut r = Rng::new(o.seed);
     udp_enumerate(&mut ctx, rec, if o.thorough() { 4 } else { 2 });
     let n = o.n(4000, 600_000);
@@ -719,6 +804,10 @@ pub fn run(o: &Opts, rec: &mut Recorder) {
         mux_enumerate(&mut ctx, rec, 3, 5, &mut serial);
     } else {
         mux_enumerate(&mut ctx, rec, 3, 3, &mut serial);
+    }
+    for _ in 0..o.n(400, 40_000) {
+        let l = gen_xchg(&mut r);
+        exec(&mut ctx, &l, rec);
     }
     let nb = o.n(600, 100_000);
     for i in 0..nb {
